@@ -149,12 +149,18 @@ func vhBulkBody(out string) (string, bool) {
 }
 
 // VH_C17_transports: the same reply framed for HTTP, native and websocket transports.
-//verif:cfg b_transports=HTTP,Native,WebSocket b_commands=6 ignorego=1
+//verif:cfg b_transports=HTTP,Native,WebSocket b_commands=6+5_vector-tile_requests(HTTP) ignorego=1
 func VH_C17_transports() {
 	s, _ := vhGateServer()
-	cmds := [][]string{{"GET", "fleet", "truck1"}, {"SCAN", "fleet"}, {"PING"}, {"NOSUCH"}, {"GET", "nokey", "x"}, {"SET", "fleet", "t9", "POINT", "1", "2"}}
+	cmds := [][]string{{"GET", "fleet", "truck1"}, {"SCAN", "fleet"}, {"PING"}, {"NOSUCH"}, {"GET", "nokey", "x"}, {"SET", "fleet", "t9", "POINT", "1", "2"},
+		// vector-tile requests exist over HTTP only: a tile, a tile of a missing key, and requests that fail
+		{"fleet/0/0/0.mvt"}, {"nokey/3/1/2.pbf"}, {"fleet/0/0/zero.mvt"}, {"fleet/0/0/0.pbf?limit=many"}, {"fleet/1/1/1.mvt?sparse=2"}}
 	c := cmds[vchoose(len(cmds))]
 	ct := [3]Type{HTTP, Native, WebSocket}[vchoose(3)]
+	tile := len(c) == 1 && strings.Contains(c[0], "/")
+	if tile {
+		ct = HTTP
+	}
 	client := &Client{}
 	msg := &Message{Args: append([]string(nil), c...), ConnType: ct, OutputType: JSON}
 	err := s.handleInputCommand(client, msg)
@@ -165,11 +171,17 @@ func VH_C17_transports() {
 	switch ct {
 	case HTTP:
 		i := strings.Index(out, "\r\n\r\n")
-		if strings.HasPrefix(out, "HTTP/1.1 200 OK\r\n") && i > 0 {
+		if (strings.HasPrefix(out, "HTTP/1.1 200 OK\r\n") || (tile && strings.HasPrefix(out, "HTTP/1.1 500 Internal Server Error\r\n"))) && i > 0 {
 			body = out[i+4:]
 			cl := vhHeaderInt(out[:i], "Content-Length: ")
 			ok = cl == len(body) && strings.HasSuffix(body, "\r\n")
 			body = strings.TrimSuffix(body, "\r\n")
+			if strings.Contains(out[:i], "Content-Type: application/vnd.mapbox-vector-tile") {
+				// a binary tile: the framing is what is decided
+				vassert("C17.K3.transport_framing_carries_exact_length", ok && strings.HasPrefix(out, "HTTP/1.1 200 OK"))
+				vreach("tile")
+				return
+			}
 		}
 	case Native:
 		// $<len> <body>\r\n
